@@ -17,14 +17,17 @@ func main() {
 	replay := flag.String("replay", "", "")
 	child := flag.String("child", "", "internal")
 	flag.Parse()
-	if *replay != "" {
-		fmt.Println("see", *replay)
-		os.Exit(1)
-	}
 	servermc.Silence()
 	if *child != "" {
 		servermc.ChildMain(*child)
 		return
+	}
+	if *replay != "" {
+		if *prop == "C11" {
+			os.Exit(servermc.ReplayC11(*replay))
+		}
+		fmt.Println("see", *replay)
+		os.Exit(1)
 	}
 	switch *prop {
 	case "C15":
@@ -36,7 +39,7 @@ func main() {
 	os.Exit(2)
 }
 
-func basePort() int { return 21000 + (os.Getpid()%400)*20 }
+func basePort() int { return servermc.FreeBase() }
 
 func runC15(tier string) int {
 	quick := tier == "quick"
